@@ -299,6 +299,15 @@ class _FragGen:
         if o == "sub":
             neg = ["n", "Product", [["t", [["i", -1] if k == "int" else r.choice(
                 [["i", -1], ["f", "-1.0"]])] + [e(d + 1) for _ in range(r.randint(1, 2))]]]]
+            if k == "int" and r.random() < 0.2:
+                # other leading coefficients: negative ones that are not -1, the ends of the
+                # narrow integer types (times something small, so that numpy's own arithmetic
+                # stays exact)
+                lead = r.choice([["i", -3], ["i", -2], ["np", "int8", "-128"],
+                                 ["np", "int16", "-32768"], ["np", "uint8", "255"],
+                                 ["np", "int8", "-1"]])
+                small = r.choice([["i", 1], self.var(), self.indicator(d)])
+                neg = ["n", "Product", [["t", [lead, small]]]]
             if k == "mixed" and r.random() < 0.2:
                 # both kinds of minus one in one product, in either order
                 fs = [["f", "-1.0"], ["i", -1], e(d + 1)]
